@@ -570,6 +570,8 @@ func (r *c15Run) race(c, u int, held bool, newcomer int) {
 		r.em.Count(fmt.Sprintf("race-outcome:cancelled-waiter-got-the-token,waiters=%d", nwait))
 	case c15CtxErr:
 		r.em.Count(fmt.Sprintf("race-outcome:cancelled-waiter-returned-error,waiters=%d", nwait))
+	case c15MgrErr:
+		r.em.Count(fmt.Sprintf("race-outcome:cancelled-waiter-got-the-token-and-released-it-on-its-error-path,waiters=%d", nwait))
 	default:
 		r.em.Count("race-outcome:other")
 	}
